@@ -10,6 +10,7 @@ import (
 
 	"verif/internal/core"
 	"verif/internal/eng"
+	"verif/internal/sched"
 )
 
 // C02 — watermark discipline: no early firing, no on-time loss, bounded late updates.
@@ -49,6 +50,10 @@ func runC02(ctx *core.Ctx) {
 	ctx.Cases("c02idle", ni, 6, func(i int, r *rand.Rand) {
 		execC02Idle(ctx, core.CaseRef{Stream: "c02idle", Index: i}, r)
 	})
+	for k, v := range sched.Hits() {
+		ctx.Count("hook_hits."+k, v)
+	}
+	ctx.Count("perturbation_actions", sched.Acted())
 }
 
 // prefixMax[i] = largest usable timestamp among the first i emitted rows (rows, then sentinel).
